@@ -1,6 +1,8 @@
 import Mp.DecProofs
 import Mp.DivProofs3
 import Mp.ModProofs
+import Mp.AggProofs
+import Mp.AggFunc
 /-! C04 — property theorems (proved in the imported modules; statements are checked there, axioms audited here). -/
 #print axioms Mp.Dec.add_toRat
 #print axioms Mp.Dec.sub_toRat
@@ -8,3 +10,18 @@ import Mp.ModProofs
 #print axioms Mp.Dec.div_bound
 #print axioms Mp.Dec.mod_spec
 #print axioms Mp.Dec.modQuot_trunc
+#print axioms Mp.Dec.sumL_toRat
+#print axioms Mp.Dec.minL_spec
+#print axioms Mp.Dec.maxL_spec
+#print axioms Mp.Dec.avgL_bound
+#print axioms Mp.sum_spec
+#print axioms Mp.minimum_spec
+#print axioms Mp.maximum_spec
+#print axioms Mp.average_spec
+#print axioms Mp.add_func
+#print axioms Mp.subtract_func
+#print axioms Mp.multiply_func
+#print axioms Mp.divide_func
+#print axioms Mp.modulo_func
+#print axioms Mp.divide_by_zero
+#print axioms Mp.modulo_by_zero
